@@ -6,3 +6,26 @@ CONSTANTS
  MaxNaN = 3
 INIT Init
 NEXT EvalGen
+INVARIANT AllInDomain
+INVARIANT CatIndex
+INVARIANT CatThenColumn
+INVARIANT CatInnerIsOuterCut
+INVARIANT CatFillIsAsOf
+INVARIANT CatFillKeeps
+INVARIANT CatAssociates
+INVARIANT StackRows
+INVARIANT StackThenDropIsUpdate
+INVARIANT AsSeriesRoundTrip
+INVARIANT AsSeriesList
+INVARIANT ColumnByName
+INVARIANT ColumnByPosition
+INVARIANT ColumnPassesThrough
+INVARIANT ColumnsOrdered
+INVARIANT RecolumnLaw
+INVARIANT RecolumnIsSeriesLaw
+INVARIANT NpReindexAtEnd
+INVARIANT DropDupLaw
+INVARIANT MaskLaw
+INVARIANT ApplyIsAggregate
+INVARIANT ApplyNaNOnlyWhereNoEntry
+INVARIANT SfLaw
